@@ -28,6 +28,17 @@ CONSTANTS Calls,      \* outbound call ids
           Closers,    \* Close() invocations
           AtomicRD, LeakFix, BadReplies
 
+\* Two further switches, defined here and overridden in Session_early*.cfg (so that the existing configurations and the
+\* generated SessionGen module are untouched):
+\*   EarlyReplies  a hostile remote answers a call it has not received yet (sequence numbers are predictable): the REPLY
+\*                 can arrive while AsyncCall still holds the call's mutex, and the write may then fail
+\*   RecheckFix    bindReply, once it has the call's mutex, makes sure the call is still in the table (repaired code,
+\*                 fix f93528b) instead of completing a call that was completed while it waited
+EarlyReplies == FALSE
+RecheckFix   == TRUE
+SwitchOn  == TRUE
+SwitchOff == FALSE
+
 VARIABLES
   status,      \* lifecycle word
   indexed,     \* present in the peer's session hub
@@ -128,7 +139,7 @@ CReturn(c) ==   \* postWriteCall; return (deferred cmd.mu.Unlock)
 ReplyKinds == IF BadReplies THEN {"good", "bad"} ELSE {"good"}
 
 RemoteReply(c, kind) ==
-  /\ c \in wireOut /\ c \notin replied /\ connUp
+  /\ (c \in wireOut \/ (EarlyReplies /\ c \in pending)) /\ c \notin replied /\ connUp
   /\ replied' = replied \cup {c} /\ wireIn' = Append(wireIn, <<"reply", c, kind>>)
   /\ UNCHANGED <<sessVars, callVars, readVars, rhpc, nfput, hdlVars, clpc, rdVars,
                  wireOut, connUp, sentIn, repliesOut, enteredAtClose>>
@@ -171,11 +182,15 @@ RRecv ==        \* ReadMessage up to the reply lookup.  -> reply.found | read.fr
   /\ UNCHANGED <<sessVars, callVars, rhpc, nfput, hdlVars, clpc, rdVars,
                  wireOut, connUp, replied, sentIn, repliesOut, enteredAtClose>>
 
-RLock ==        \* bindReply: callCmd.mu.Lock(); inputMeta set.  -> reply.locked
+RLock ==        \* bindReply: callCmd.mu.Lock(); [still in the table?]; inputMeta set.  -> reply.locked
   /\ rpc = "found" /\ mu[rcur[2]] = "free"
-  /\ mu' = [mu EXCEPT ![rcur[2]] = "reader"] /\ hasReply' = [hasReply EXCEPT ![rcur[2]] = TRUE]
-  /\ rpc' = "locked"
-  /\ UNCHANGED <<sessVars, cpc, pending, cstat, doneCnt, wgCall, rcur, rerr, rbuf, rhpc, nfput,
+  /\ IF RecheckFix /\ rcur[2] \notin pending
+       THEN \* completed while the reader waited for the lock: Unlock; treated like a reply that matches no call
+            /\ rpc' = "frame" /\ rcur' = <<"replyNF", rcur[2], rcur[3]>> /\ rerr' = FALSE
+            /\ UNCHANGED <<mu, hasReply>>
+       ELSE /\ mu' = [mu EXCEPT ![rcur[2]] = "reader"] /\ hasReply' = [hasReply EXCEPT ![rcur[2]] = TRUE]
+            /\ rpc' = "locked" /\ UNCHANGED <<rcur, rerr>>
+  /\ UNCHANGED <<sessVars, cpc, pending, cstat, doneCnt, wgCall, rbuf, rhpc, nfput,
                  hdlVars, clpc, rdVars, netVars, enteredAtClose>>
 
 RDecode ==      \* body decode, ReadMessage returns.  -> read.frame
